@@ -930,8 +930,12 @@ func (s *sim) checkLossResponse() {
 		a.lock.RLock()
 		cur := lossSnap{marked: map[uint32]bool{}, cwnd: a.CWND(), t3: a.stats.getNumT3Timeouts(), infr: a.inFastRecovery, valid: true}
 		newly := []uint32{}
+		lastUnacked, haveLast := uint32(0), false
 		for i := 0; i < a.inflightQueue.chunks.Len(); i++ {
 			c := a.inflightQueue.chunks.At(i)
+			if !c.acked && !c.abandoned() {
+				lastUnacked, haveLast = c.tsn, true
+			}
 			if c.retransmit && !c.acked {
 				cur.marked[c.tsn] = true
 				if s.loss[side].valid && !s.loss[side].marked[c.tsn] && c.nSent == 1 {
@@ -941,7 +945,10 @@ func (s *sim) checkLossResponse() {
 		}
 		a.lock.RUnlock()
 		prev := s.loss[side]
-		if prev.valid && len(newly) > 0 && cur.t3 == prev.t3 && !cur.infr && !prev.infr && cur.cwnd >= prev.cwnd {
+		// a tail-loss probe (PTO timer, RFC 8985 7.3) marks exactly the most recently sent outstanding chunk for
+		// retransmission; it is a probe, not a loss signal, and carries no congestion response
+		tailProbe := len(newly) == 1 && haveLast && newly[0] == lastUnacked
+		if prev.valid && len(newly) > 0 && !tailProbe && cur.t3 == prev.t3 && !cur.infr && !prev.infr && cur.cwnd >= prev.cwnd {
 			s.fail("C10", fmt.Sprintf("chunks marked lost without any congestion response (loss-marked-without-cwnd-cut): side=%d tsns=%v cwnd %d -> %d", side, newly, prev.cwnd, cur.cwnd))
 		}
 		s.loss[side] = cur
